@@ -12,3 +12,9 @@ package event
 //@   assumed
 //@   modifies nothing
 //@   emits Call(code("event|IConsumer.ConsumeEvent"), this, arg0)
+
+//@ func IEvent.MatchesEventInstance
+//@   assumed
+//@   pure
+//@   modifies nothing
+//@   flag emits none
